@@ -170,6 +170,26 @@ CLAIMS["C09"] = dict(
          "histories explored. Holds only after the fix commits a5e9710 and 9f3c432.",
 )
 
+CLAIMS["C08"] = dict(
+    technique="Lean 4: lock discipline of the step skeleton GENERATED from the source (decide), exhaustive kernel-checked exploration of all schedules of two threads over the generated programs, atomic-level invariant for any number of threads; deterministic real-thread scheduler for correspondence and replay",
+    text="PARTIAL. The atomic step skeleton of _tooler/_untooler (push/pop/_apply/get inlined) is regenerated from the "
+         "source on every run. Lean checks that every access to the shared counters and code object happens under the "
+         "lock, computes in the kernel the set of states reachable by two threads (activate / call / deactivate each, "
+         "distinct, identical and overlapping captured variables) under EVERY schedule at source-line granularity and "
+         "proves it closed and good, hence every schedule keeps each thread's variables instrumented during its call and "
+         "ends on the original code with zero counters; for any number of threads the same holds when activation, "
+         "deactivation and call entry are atomic (invariant of the life-cycle model). Without the lock operations the "
+         "same programs reach a bad state (witness). Real threads are driven by a sys.settrace scheduler through "
+         "sampled (quick) or all (thorough) two-preemption schedules and random ones; the shared state after every "
+         "scheduled step is compared with the model and each thread's events/return value with its sequential run. If "
+         "the discipline breaks, the compiled model searches a bad schedule and the scheduler replays it on real threads.",
+    design_ref="DESIGN.md section 5, C08",
+    note="Assumptions (not verified): atomicity unit = one source line under CPython 3.12's GIL, ContextVar values are "
+         "per thread, single dict/Counter operations are atomic; free-threaded builds, signal handlers and memory-model "
+         "effects below that granularity are outside the model. Three threads at line level are explored by the "
+         "compiled model in the thorough tier (a test, not a kernel proof).",
+)
+
 PENDING_REASON = ("not claimed yet in this build: the Lean model and correspondence check for this property are "
                   "still under construction (see DESIGN.md section 11); the technique applies and the property "
                   "will move to `checks` when its check exists")
